@@ -48,6 +48,26 @@ def _wait(pred, what, timeout=20.0):
     raise Mismatch("timeout waiting for " + what)
 
 
+def _kill_leftovers(root):
+    """Task processes of an abandoned real run (each in its own session, blocked on its FIFO): found by the marker in their
+    environment, never by process group (the harness's own group must not be touched)."""
+    marker = ("VFW_ROOT=" + root).encode()
+    me = os.getpid()
+    for d in os.listdir("/proc"):
+        if not d.isdigit() or int(d) == me:
+            continue
+        try:
+            with open("/proc/%s/environ" % d, "rb") as f:
+                env = f.read().split(b"\0")
+        except OSError:
+            continue
+        if marker in env:
+            try:
+                os.kill(int(d), signal.SIGKILL)
+            except OSError:
+                pass
+
+
 def replay_trace_on_real_kernel(scn, obs):
     """Returns list of mismatch descriptions (empty = the real run is observationally identical)."""
     files = dict(scn["files"])
@@ -81,7 +101,7 @@ def replay_trace_on_real_kernel(scn, obs):
     env.update({"VFW_TRACE": trace, "VFW_FIFOS": fifos, "VFW_ROOT": root, "PYTHONPATH": driver.REPO_SRC, "PYTHONUNBUFFERED": "1"})
     env.pop("COND_OUT", None)
     proc = subprocess.Popen(["/venv/bin/python", "-m", "conductor"] + list(scn["argv"]), cwd=os.path.join(root, scn.get("cwd", ".")),
-                            env=env, stdout=subprocess.PIPE, stderr=subprocess.PIPE)
+                            env=env, stdout=subprocess.PIPE, stderr=subprocess.PIPE, start_new_session=True)
     out_lines, err_chunks = [], []
 
     def rd_out():
@@ -126,12 +146,9 @@ def replay_trace_on_real_kernel(scn, obs):
         t2.join(5)
     except (Mismatch, subprocess.TimeoutExpired) as ex:
         mism.append(str(ex))
-        try:
-            os.killpg(os.getpgid(proc.pid), signal.SIGKILL)
-        except OSError:
-            pass
         proc.kill()
         proc.wait()
+        _kill_leftovers(root)
         return mism
     # ---- compare observables
     vroot, rroot = obs.root, root
